@@ -80,7 +80,7 @@ func (c HCase) declared(op int) (offers []string, explicit bool) {
 
 // admissible computes, from the structure, the offers that may be chosen: those matched at the maximal
 // (weight, specificity). The order of produces inside a route is a map order, so every such offer is admissible;
-// the API default is put last by the code, so unless it was declared explicitly it only wins when it is alone.
+// the API default is put last by the code (also when the description lists it), so it only wins when it is alone.
 func admissible(ranges []Range, offers []string, def string, explicit bool) map[string]bool {
 	return Admissible(ranges, offers, def, explicit)
 }
@@ -116,7 +116,10 @@ func Admissible(ranges []Range, offers []string, def string, explicit bool) map[
 			}
 		}
 	}
-	if !explicit && len(out) > 1 {
+	// Respond moves the API default behind every other declared type, whether or not the description lists it
+	// itself ("its produces list plus the API's default type, last"): in a tie it only wins when it is alone.
+	_ = explicit
+	if len(out) > 1 {
 		delete(out, def)
 	}
 	return out
